@@ -87,6 +87,8 @@ func yq(s string) string {
 			b.WriteString(`\L`)
 		case 0x2029:
 			b.WriteString(`\P`)
+		case 0xfeff:
+			b.WriteString(`\uFEFF`) // a byte order mark inside a document is not allowed unescaped
 		default:
 			if r < 0x20 || r == 0x7f {
 				b.WriteString(fmt.Sprintf(`\x%02x`, r))
@@ -224,6 +226,11 @@ func (r rawInstance) yamlStyled(b *strings.Builder, st *yamlStyle) {
 					have[kv] = true
 				}
 				sub := len(prev) > 0 && len(prev) < len(*r.meta)
+				for _, kv := range *r.meta {
+					if kv[0] == "<<" { // yaml.v3 takes a quoted "<<" next to a merge for a duplicate key
+						sub = false
+					}
+				}
 				for _, kv := range prev {
 					if !have[kv] {
 						sub = false
@@ -712,6 +719,10 @@ func runWrite(idx int, c writeCase, sub ...string) (string, []byte) {
 		outPath = filepath.Join(dir, "out.mid")
 		must(os.WriteFile(outPath, bytes.Repeat([]byte("MTrk previous content "), 2000), 0o644))
 		args = append(args, "-o", outPath)
+	}
+	if d := os.Getenv("CRD_DUMP_REQ"); d != "" && strings.HasPrefix(c.req("write"), d) { // debugging aid: keep the document of one request
+		os.WriteFile(filepath.Join(outDir, fmt.Sprintf("dump-%d.yml", idx)), []byte(yamlDocStyled(c.is, c.style)), 0o644)
+		os.WriteFile(filepath.Join(outDir, fmt.Sprintf("dump-%d.args", idx)), []byte(strings.Join(args, "\n")), 0o644)
 	}
 	res := runCrd([]byte(yamlDocStyled(c.is, c.style)), 20*time.Second, args...)
 	switch res.class() {
